@@ -19,7 +19,7 @@ cd $HERE
 VERIF_REPO=$WT ./check $prop --tier $tier > /tmp/seedrun/$id.log 2>&1
 rc=$?
 all=$(grep "violated:" /tmp/seedrun/$id.log | sed 's/ -- .*//; s/  violated: //' | sort -u)
-ded=$(echo "$all" | grep -E '^(T-|F-|M-|attached:|call:|lemma:|[A-Z_a-z]+[.:][A-Za-z_#]+[:.].*(post|loop|raise|at-|requires|frame|cover|keeps)|Length)' | head -4 | tr '\n' ';')
+ded=$(echo "$all" | grep -E '^(T-|F-|M-|attached:|call:|lemma:|[A-Z_a-z]+[.:][A-Za-z_#]+[:.].*(post|loop|raise|at-|requires|frame|cover|keeps|returns-kind)|Length)' | head -4 | tr '\n' ';')
 std=$(echo "$all" | grep -E '^[a-z]+:(c|py|twin):' | head -3 | tr '\n' ';')
 echo "$id rc=$rc deductive=[$ded] standin=[$std]"
 cd /; git -C /repo worktree remove --force $WT >/dev/null 2>&1
